@@ -226,8 +226,48 @@ func HarnessRestartEquiv() {
 // The periodic probing of restored targets is irrelevant to restart equivalence (and covered by C09/C17): the probe
 // loops are not started in this harness.
 //
-//verif:stub (*github.com/basecamp/kamal-proxy/internal/server.Target).BeginHealthChecks harness=HarnessRestartEquiv,HarnessSnapshotCrash,HarnessSnapshotOverlap,HarnessSnapshotOverlapDirected,HarnessRestoredCommands,HarnessRolloutRestart
+//verif:stub (*github.com/basecamp/kamal-proxy/internal/server.Target).BeginHealthChecks harness=HarnessRestartEquiv,HarnessSnapshotCrash,HarnessSnapshotOverlap,HarnessSnapshotOverlapDirected,HarnessRestoredCommands,HarnessRolloutRestart,HarnessRestartAfterRepeatedCommand
 func stubBeginHealthChecksNoProbe(t *Target, c TargetStateConsumer) {
 	t.stateConsumer = c
 	t.becameHealthy = make(chan bool)
+}
+
+// HarnessRestartAfterRepeatedCommand: a gate command repeated with other arguments (stop with a new message, pause with
+// a new max-pause, or a resume in between) through the Router: after a restart the proxy has the arguments of the
+// latest command, like the proxy that wrote the file.
+func HarnessRestartAfterRepeatedCommand() {
+	vSortMode = 0
+	vSnapshotReal = true
+	topts := TargetOptions{HealthCheckConfig: HealthCheckConfig{Path: "/up", Interval: 1000, Timeout: 1000}}
+	orig := NewRouter("/state")
+	svc, err := NewService("svc", ServiceOptions{Hosts: []string{"h"}}, topts)
+	vAssert(err == nil, "restart: service builds")
+	svc.active = vDeployedBalancer([]string{"a0:80"}, topts)
+	vAssert(vInstall(orig, svc), "restart: install")
+	msg1, msg2 := vString("msg1", 2), vString("msg2", 2)
+	d1, d2 := vDur("max_pause1"), vDur("max_pause2")
+	step := func(which int, msg string, d time.Duration) {
+		switch which {
+		case 0:
+			vAssert(orig.StopService("svc", 0, msg) == nil, "restart: stop accepted")
+		case 1:
+			vAssert(orig.PauseService("svc", 0, d) == nil, "restart: pause accepted")
+		case 2:
+			vAssert(orig.ResumeService("svc") == nil, "restart: resume accepted")
+		}
+	}
+	step(vChoose("first", 3), msg1, d1)
+	step(vChoose("second", 3), msg2, d2)
+	rest := NewRouter("/state")
+	vAssert(rest.RestoreLastSavedState() == nil, "restart: the state file restores")
+	rsvc := rest.services.Get("svc")
+	vAssert(rsvc != nil, "restart: the service is restored")
+	if rsvc == nil {
+		return
+	}
+	a, b := svc.pauseController, rsvc.pauseController
+	vAssert(a.GetState() == b.GetState(), "restart: same running / paused / stopped state after repeated commands")
+	vAssert(a.StopMessage == b.StopMessage && a.FailAfter == b.FailAfter, "restart: same stop message and max-pause after repeated commands")
+	vCover(a.GetState() == PauseStateStopped, "stopped reachable")
+	vCover(a.GetState() == PauseStatePaused, "paused reachable")
 }
